@@ -104,7 +104,7 @@ def run(ctx):
     records, inputs_table = [], {}
     findings = []
     if info["mode"] == "overlay":
-        args = ["-seed", str(ctx.seed), "-random", "3" if quick else "40", "-per-site", "3" if quick else "16",
+        args = ["-seed", str(ctx.seed), "-random", "2" if quick else "40", "-per-site", "3" if quick else "16",
                 "-rot-cap", "3" if quick else "8"]
         out = pc.run_jobs(ctx, "c03-explore", jobs, args=args, parallel=14, timeout=2400)
         hung = sorted(r["job"] for r in out if r.get("kind") == "timeout")
